@@ -34,7 +34,7 @@ ASSUMPTIONS = [
     "by the live-vs-model comparison (the model has value semantics) and by C05's persisted-vs-live runs",
 ]
 
-FAM = progs.family(p_pub_dict=0.35, p_publish=0.6, n_tasks=(3, 8), p_join=0.7, p_join_count=0.5, p_items=0.25, p_loop=0.2, p_retry=0.35, p_late_join=0.5, p_fail=0.3,
+FAM = progs.family(p_join_retry=0.7, p_pub_dict=0.35, p_publish=0.6, n_tasks=(3, 8), p_join=0.7, p_join_count=0.5, p_items=0.25, p_loop=0.2, p_retry=0.35, p_late_join=0.5, p_fail=0.3,
                    steps=(15, 70))
 
 
@@ -54,7 +54,7 @@ def nontrivial(r):
 
 def run(ctx):
     return common.conductor_run(
-        ctx, "C18", FAM, common.project_full, monitors.c18, features, nontrivial, 300, 6000,
+        ctx, "C18", FAM, common.project_full, monitors.c18, features, nontrivial, 500, 6000,
         rule="generated definitions weighted to multi-referenced tasks, joins, with-items, loops and retries with random "
              "histories; non-trivial = at least 4 execution records and 3 context snapshots; distinct = distinct "
              "(definition, operation list)")
